@@ -335,6 +335,12 @@ class Typer:
             return a if a == b else None
         if isinstance(e, ast.ListComp):
             return None
+        if isinstance(e, (ast.Compare, ast.BoolOp)):
+            # no type of its own, but the operands are expressions whose contractions are checked
+            for ch in ast.iter_child_nodes(e):
+                if isinstance(ch, ast.expr):
+                    self.expr(ch)
+            return None
         return None
 
     def call(self, c: ast.Call):
@@ -404,6 +410,8 @@ class Typer:
         # declared signatures
         name = c.func.attr if isinstance(c.func, ast.Attribute) else (c.func.id if isinstance(c.func, ast.Name) else None)
         sig = self.call_sigs.get(f) or self.call_sigs.get(name)
+        if isinstance(c.func, ast.Attribute) and not isinstance(c.func.value, ast.Name):
+            self.expr(c.func.value)  # the receiver of a method call is an expression of its own: (a . b).sum()
         for a in args:
             self.expr(a)
         for k in c.keywords:
